@@ -97,7 +97,7 @@ def corpus():
                          dict(op='dispatch', path='/w/7', verb='PUT', sent=dict(path='/s', verb='PUT')),
                          dict(op='dispatch', path='/nowhere', verb='GET', sent=dict(path='/s', verb='GET')),
                          dict(op='dispatch', path='/s', verb='GET', sent=dict(path='/nowhere', verb='BREW')),
-                         dict(op='dispatch', path='/w/é', verb='PUT', sent=dict(path='/w/7', verb='GET'))]))
+                         dict(op='dispatch', path='/w/7', verb='PUT', sent=dict(path='/w/é', verb='GET'))]))
     # HEAD registered explicitly wins over GET
     cs.append(dict(cmds=[dict(op='add', rule='/s', methods=['GET'], h=1), dict(op='add', rule='/s', methods=['HEAD'], h=2)]
                    + _probe_all(['/s'])))
